@@ -14,12 +14,24 @@ RULE = ("one case = (image size, content class, target, mipmaps on/off, mip filt
         "exactly; raw1: each decoded colour is in the 256-entry palette read from the file bytes and is the entry its stored index selects, decoded alpha is one of the two "
         "representable levels neighbouring source*(2^d-1)/255, a function of the source alpha, monotone; every level below level 0 of a raw1/raw3 chain is decoded too (palette "
         "membership + stored index, alpha / channel values inside what a resampling of the source can give); JPEG/DXT: structure only. A case is trivial if the converter or encoder "
-        "refuses the combination (tallied per target; none did). distinct = distinct (target, mip, WxH, content, filter) tuples run.")
+        "refuses the combination (tallied per target; none did). distinct = distinct (target, mip, WxH, content, filter[, source variant]) tuples run. "
+        "Further legs on every case: (e) source images of the other DynamicImage variants {Luma8, LumaA8, Luma16, LumaA16, Rgb16, Rgba16, Rgb32F, Rgba32F} x 25 targets x mip on/off "
+        "(quick 3 rounds = 1200 cases over 15 small sizes, thorough 40 rounds incl. random sizes; 16 bit samples with/without rounding jitter, float samples partly outside [0,1]) go "
+        "through all of (a)-(d) with the image crate's own to_rgba8() view as the source pixels (source_variant|*); (f) entry points: for BLP1/BLP2 load_blp_from_buf, "
+        "parse_blp_with_externals(no_mipmaps) and parse_blp_with_externals with a callback offering unrelated external files return the structure parse_blp returns; for BLP0 main "
+        "files without their external files parse_blp, parse_blp_with_externals(no_mipmaps) and load_blp_from_buf agree (all refuse with the same error kind, or all return the same "
+        "structure) (entry_point_*, blp0_without_externals_*); (g) BlpImage::mipmap_info() has one entry per stored level, numbered in order, with the halved dimensions, their "
+        "product, and the stored size of the level as held in the structure and as the file's table / external file length says (mipmap_info_*); (h) JPEG targets: "
+        "BlpJpeg::full_jpeg(i) of every stored level decodes with the image crate to the level's dimensions and is None beyond the last level (full_jpeg_*).")
 ASSUME = [
     "'quantised to the declared depth' is read as: the decoded alpha is the 8-bit expansion of floor or ceil of a*(2^d-1)/255 (this admits floor, round and ceil), the same for equal "
     "source alphas, and monotone. Observed in convert/raw1.rs: 8 bit exact, 4 bit round-to-nearest (expanded as nibble*17), 1 bit 'alpha > 0' (= ceil); counters "
     "alpha_d*_consistent_with_{floor,round,ceil} report how many pixels agree with each rule",
-    "source pixels of a DynamicImage are its to_rgba8() view (sources are Rgba8 or Rgb8 only, so this conversion is exact)",
+    "source pixels of a DynamicImage are its to_rgba8() view: exact for Rgba8 / Rgb8 sources; for Luma / 16 bit / float sources it is the image crate's own conversion (grey -> r=g=b, "
+    "no alpha -> 255, 16 bit and float rounded/clamped to 8 bit), which is what 'the source pixels' of an 8-bit BGRA / palettised texture can mean for such an image; the "
+    "lower-level range laws carry over because that conversion is monotone per channel",
+    "BLP0 keeps every level, level 0 included, in external files: a BLP0 main file parsed without externals (parse_blp / no_mipmaps / load_blp_from_buf) has no level 0 to compare, "
+    "so only the agreement of the three entry points is demanded there (observed: all refuse with MissingImage)",
     "raw1 additionally requires decoded colour == palette[stored index] (definition of a palettised encoding; stronger than bare membership, cannot fail for a correct decoder)",
     "the exact raw3 pixel law and the exact raw1 alpha law (neighbouring level, function of the source alpha, monotone) are checked on level 0; the source of the levels below is the "
     "library's own resampling, so for them only resampler-independent consequences are demanded: raw1 colours are entries of the same palette and the entry the level's stored index "
